@@ -1051,6 +1051,8 @@ def run(ctx):
     rule_blocked_callers(ctx)
     rule_leave(ctx)
     rule_time_units(ctx)
+    from .common import rule_get_conn_contains
+    rule_get_conn_contains(ctx, "closing-aware-retry")
     from .common import rule_instance_state
     rule_instance_state(ctx, ("aiokafka.producer.", "aiokafka.consumer.", "aiokafka.conn.", "aiokafka.client.",))
     rep.nd("the numeric bound on stop() latency (timeouts are runtime values)")
